@@ -17,7 +17,8 @@ Record trpart := {
   t_ucons : option (list Q)
 }.
 
-Record case := {
+(* one function result: the call of create() that produced it and what the implementation reported *)
+Record rcase := {
   c_S : Q;                        (* largest input magnitude (tolerance scale) *)
   c_cfg : ccfg;                   (* validated configuration create() was called with *)
   c_x : list Q;                   (* variables passed to create() *)
@@ -28,6 +29,18 @@ Record case := {
   c_violates : bool;              (* implementation: _violates_constraint(result, tol) *)
   c_tr : option trpart
 }.
+
+(* what the trackers of an end-to-end run retained: all delivered function results in delivery order (the first
+   one is the main result of the case), for each whether it has function values and its weighted objective, and
+   the index of the result retained by a "last" tracker, by a "best" tracker / BasicOptimizer (None: nothing) *)
+Record trk := {
+  k_fun : list bool;
+  k_obj : list (option Q);
+  k_has_last : bool; k_last : option nat;      (* k_has_*: such a tracker was attached *)
+  k_has_best : bool; k_best : option nat
+}.
+
+Record case := { c_main : rcase; c_rest : list rcase; c_trk : option trk }.
 
 Definition elist_close (S : Q) (a b : list ereal) : bool := forallb2 (eclose S) a b.
 Definition fam_close (S : Q) (o m : option family) : bool :=
@@ -67,7 +80,7 @@ Definition check_tr (S : Q) (tol : option Q) (obs : option cinfo) (t : trpart) :
   (* ... and it equals what the model computes directly in the user domain (C13_transform) *)
   && info_close S (t_obs t) (info_of (create (t_ucfg t) (t_ux t) (t_ucons t))).
 
-Definition check_case (c : case) : bool :=
+Definition check_rcase (c : rcase) : bool :=
   let m := create (c_cfg c) (c_x c) (c_cons c) in
   match m with
   | CErr => c_err c
@@ -78,6 +91,26 @@ Definition check_case (c : case) : bool :=
     && Bool.eqb (c_violates c) (violates (c_tol c) (c_obs c))
     && match c_tr c with Some t => check_tr (c_S c) (c_tol c) (c_obs c) t | None => true end
   end.
+
+Fixpoint zip3 {A B C D} (f : A -> B -> C -> D) (a : list A) (b : list B) (c : list C) : list D :=
+  match a, b, c with x :: a', y :: b', z :: c' => f x y z :: zip3 f a' b' c' | _, _, _ => [] end.
+Definition onat_eqb (a b : option nat) : bool :=
+  match a, b with Some x, Some y => Nat.eqb x y | None, None => true | _, _ => false end.
+
+(* the trackers judge the item the tolerance test is applied to (the optimizer-domain result): the retained
+   index must be the one the model selects from the reported constraint information -- exact *)
+Definition check_trk (tol : option Q) (all : list rcase) (k : trk) : bool :=
+  let items := zip3 (fun f o r => {| ti_fun := f; ti_obj := o; ti_info := c_obs r |}) (k_fun k) (k_obj k) all in
+  Nat.eqb (length items) (length all) && Nat.eqb (length (k_fun k)) (length all) && Nat.eqb (length (k_obj k)) (length all)
+  && (negb (k_has_last k) || onat_eqb (k_last k) (tracked_last tol items))
+  && (negb (k_has_best k) || onat_eqb (k_best k) (tracked_best tol items)).
+
+Definition check_case (c : case) : bool :=
+  check_rcase (c_main c) && forallb check_rcase (c_rest c)
+  && match c_trk c with
+     | Some k => check_trk (c_tol (c_main c)) (c_main c :: c_rest c) k
+     | None => true
+     end.
 
 (* constructors used by the harness *)
 Definition fam (l u v : list ereal) : family := {| f_lower := l; f_upper := u; f_viol := v |}.
